@@ -201,6 +201,12 @@ def is_sym(x):
 class SInt:
     """non-negative integer, little-endian tuple of bits (0/1/SBit); exact, no wrap-around"""
 
+    def __getattr__(self, k):
+        from .core import ModelGap
+
+        raise ModelGap("'SInt' proxy has no model of attribute '%s'" % k)
+
+
     __slots__ = ("bits",)
 
     def __init__(self, bits):
@@ -432,6 +438,12 @@ class SInt:
 class SDiff:
     """a - b for symbolic naturals, usable only in (in)equality tests:  a - b == c  <=>  a == b + c"""
 
+    def __getattr__(self, k):
+        from .core import ModelGap
+
+        raise ModelGap("'SDiff' proxy has no model of attribute '%s'" % k)
+
+
     __slots__ = ("a", "b")
 
     def __init__(self, a, b):
@@ -472,6 +484,12 @@ def _lin_eq(x, y):
 class SNeg:
     """-(magnitude) for a symbolic non-negative magnitude: just enough of int for sign-magnitude codecs (abs, unary minus,
     comparison with 0, equality)"""
+
+    def __getattr__(self, k):
+        from .core import ModelGap
+
+        raise ModelGap("'SNeg' proxy has no model of attribute '%s'" % k)
+
 
     __slots__ = ("mag",)
 
@@ -579,6 +597,12 @@ def bmaj(a, b, c):
 
 class SLin:
     """integer linear form  sum coeff * bit + k   (what numpy.dot / sum() build)"""
+
+    def __getattr__(self, k):
+        from .core import ModelGap
+
+        raise ModelGap("'SLin' proxy has no model of attribute '%s'" % k)
+
 
     __slots__ = ("t", "k")
 
@@ -745,6 +769,11 @@ def as_sint(x):
 
 # ------------------------------------------------------------------ bitarray model
 class SBits:
+    def __getattr__(self, k):
+        from .core import ModelGap
+
+        raise ModelGap("'SBits' proxy has no model of attribute '%s'" % k)
+
     def __init__(self, init=None, endian="big"):
         self.endian = endian
         if init is None:
@@ -976,6 +1005,11 @@ def s_int2ba(v, length=None, endian="big", signed=False):
 
 # ------------------------------------------------------------------ bytes model
 class SBytes:
+    def __getattr__(self, k):
+        from .core import ModelGap
+
+        raise ModelGap("'SBytes' proxy has no model of attribute '%s'" % k)
+
     def __init__(self, items):
         self.v = [as_sint(x) if not isinstance(x, (int, _np.integer)) else int(x) for x in items]
 
